@@ -41,7 +41,8 @@ RULE = ('case = (layer configuration incl. grid, cache state, service, request);
 TRUSTED = ['model Limits.v hand-written from service/tile.py, service/wmts.py, service/kml.py, service/wms.py, layer.py, cache/tile.py, grid.py',
            'tie = differential run of the real WSGI app vs the model (vm_compute); request SRS = grid SRS only']
 ASSUMPTIONS = ['upstream answers every GetMap with a cacheable image (no source errors)',
-               'no coverage / authorization callback configured']
+               'no coverage / authorization callback configured',
+               'with meta_buffer > 0 the grid bbox is at least one pixel of the coarsest level wide and high']
 EXPLANATION = ('refusal-before-effects and effects-inside-grid proved for all requests over the model; real application compared on '
                'boundary addresses, limits, malformed values under a recording upstream and cache')
 
@@ -568,7 +569,7 @@ def boundary_values(rng, n):
 
 
 BAD_COMPONENTS = ['abc', '1e3', '0x1', 'NaN', '', '-', '1a', '--1']
-ODD_COMPONENTS = ['1.5', '+1', ' 1', '1_0', '01', '-0', '00']   # accepted by int() but not all by the path patterns
+ODD_COMPONENTS = ['1.5', '-0.5', '-0.999', '0.0', '-1e-9', '1e0', '+1', ' 1', '1_0', '01', '-0', '00']   # accepted by int() but not all by the path patterns
 
 
 def gen_tile_requests(ctx, li, count):
@@ -606,9 +607,15 @@ def gen_tile_requests(ctx, li, count):
             q[rng.choice(['x', 'y', 'z'])] = rng.choice(BAD_COMPONENTS)
         elif r < 0.09:
             q[rng.choice(['x', 'y', 'z'])] = rng.choice(ODD_COMPONENTS)
+        elif r < 0.13 and svc in ('WmtsKvp', 'WmtsKvpFI'):
+            # fractional column / row next to an otherwise plausible address: int() refuses them, nothing may be truncated
+            k = rng.choice(['x', 'y'])
+            q[k] = rng.choice(['-0.5', '-0.999', '-1e-9', '0.0', q[k] + '.0', q[k] + '.5', '0.9'])
         r = rng.random()
         if r < 0.12:
-            q['fmt'] = rng.choice(['jpeg', 'jpeg', 'gif', 'PNG', 'png8', 'tiff', 'mixed', 'exe'])
+            q['fmt'] = rng.choice(['jpeg', 'jpeg', 'gif', 'PNG', 'png8', 'tiff', 'mixed', 'exe',
+                                   # pieces of the offered mime type 'image/png' are not offered formats
+                                   'ng', 'p', 'g', 'pn', 'image', 'mage', 'e', 'imagepng'])
         elif r < 0.2 and svc == 'WmtsKvpFI':
             q['fmt'] = None
         if svc == 'WmtsRestFI':
@@ -621,11 +628,15 @@ def gen_tile_requests(ctx, li, count):
                 offered = li.opts['dims'].get(name.lower())
                 if offered and rng.random() < 0.6:
                     v = rng.choice(offered[0])
-                    q['dims'][name] = rng.choice([v, v, v.lower(), v.upper(), v.swapcase(), v + 'x'])
+                    v2 = rng.choice(offered[0])
+                    # a comma list of offered values is not an offered value
+                    q['dims'][name] = rng.choice([v, v, v.lower(), v.upper(), v.swapcase(), v + 'x',
+                                                  v + ',' + v2, v + ',' + v, v + ',', ',' + v])
         if svc in ('WmtsKvp', 'WmtsKvpFI') and li.opts['dims'] and rng.random() < 0.12:
             dn = rng.choice(sorted(li.opts['dims']))
             dv = rng.choice(li.opts['dims'][dn][0])
-            q['dims'] = {dn: rng.choice(['1999', '../x', 'Default', '20200', ' 2020', dv.lower(), dv.upper(), dv.swapcase(), dv + ' '])}
+            q['dims'] = {dn: rng.choice(['1999', '../x', 'Default', '20200', ' 2020', dv.lower(), dv.upper(), dv.swapcase(), dv + ' ',
+                                        dv + ',' + rng.choice(li.opts['dims'][dn][0]), dv + ',' + dv])}
         if svc == 'Tiles' and rng.random() < 0.5:
             q['origin'] = rng.choice(['nw', 'sw', 'xx'])
         r = rng.random()
@@ -798,7 +809,12 @@ def make_specs(ctx, n_exact, with_real):
     rng = ctx.rng
     specs = []
     for i in range(n_exact):
-        specs.append(('g%d' % i, exact_grid_spec(rng), layer_opts(rng), False, False))
+        gs, lo = exact_grid_spec(rng), layer_opts(rng)
+        if lo['buffer'] and (gs['bbox'][2] - gs['bbox'][0] < gs['res'][0] or gs['bbox'][3] - gs['bbox'][1] < gs['res'][0]):
+            # degenerate: the grid bbox is narrower than one pixel of its coarsest level; with a meta_buffer the
+            # request cut to the grid bbox has 0 pixels and the (synthetic) upstream cannot answer it
+            lo['buffer'] = 0
+        specs.append(('g%d' % i, gs, lo, False, False))
     if with_real:
         for name, spec, sf, so in REAL_GRIDS:
             o = layer_opts(rng)
